@@ -42,6 +42,44 @@ type e2eResult struct {
 	ResTrailer http.Header
 }
 
+// e2eExtras carries metadata through a run: what the client attaches to the
+// request, what the handler attaches to the response, and what each side saw.
+type e2eExtras struct {
+	ReqHeader  http.Header // set by the client
+	ResHeader  http.Header // set by the handler
+	ResTrailer http.Header // set by the handler
+	// outputs
+	HandlerSawHeader http.Header
+	ClientErr        error
+	// IcptErr, if set, is returned by a handler-side interceptor instead of calling the handler
+	IcptErr error
+}
+
+type errIcpt struct{ err error }
+
+func (e errIcpt) WrapUnary(next connect.UnaryFunc) connect.UnaryFunc {
+	return func(ctx context.Context, req connect.AnyRequest) (connect.AnyResponse, error) {
+		if req.Spec().IsClient {
+			return next(ctx, req)
+		}
+		return nil, e.err
+	}
+}
+func (e errIcpt) WrapStreamingClient(next connect.StreamingClientFunc) connect.StreamingClientFunc {
+	return next
+}
+func (e errIcpt) WrapStreamingHandler(next connect.StreamingHandlerFunc) connect.StreamingHandlerFunc {
+	return func(ctx context.Context, conn connect.StreamingHandlerConn) error { return e.err }
+}
+
+func copyHeader(dst, src http.Header) {
+	for k, vs := range src {
+		for _, v := range vs {
+			dst.Add(k, v)
+		}
+	}
+}
+
 type e2eTransport int
 
 const (
@@ -60,7 +98,13 @@ func endOf(err error) string {
 // runE2E performs one call of the given kind (unary|client|server|bidi): the
 // client sends reqMsgs, the handler answers with resMsgs (or retErr).
 func runE2E[T any](mk msgKind[T], kind string, via e2eTransport, copts []connect.ClientOption, hopts []connect.HandlerOption,
-	reqMsgs, resMsgs [][]byte, retErr error, timeout time.Duration) (res e2eResult) {
+	reqMsgs, resMsgs [][]byte, retErr error, timeout time.Duration, ex *e2eExtras) (res e2eResult) {
+	if ex == nil {
+		ex = &e2eExtras{}
+	}
+	if ex.IcptErr != nil {
+		hopts = append(append([]connect.HandlerOption{}, hopts...), connect.WithInterceptors(errIcpt{ex.IcptErr}))
+	}
 	var hgot [][]byte
 	hend := ""
 	calls := 0
@@ -68,15 +112,20 @@ func runE2E[T any](mk msgKind[T], kind string, via e2eTransport, copts []connect
 	mux.Handle("/verif.Svc/Unary", connect.NewUnaryHandler("/verif.Svc/Unary",
 		func(_ context.Context, req *connect.Request[T]) (*connect.Response[T], error) {
 			calls++
+			ex.HandlerSawHeader = req.Header().Clone()
 			hgot = append(hgot, append([]byte(nil), mk.get(req.Msg)...))
 			if retErr != nil {
 				return nil, retErr
 			}
-			return connect.NewResponse(mk.mk(resMsgs[0])), nil
+			resp := connect.NewResponse(mk.mk(resMsgs[0]))
+			copyHeader(resp.Header(), ex.ResHeader)
+			copyHeader(resp.Trailer(), ex.ResTrailer)
+			return resp, nil
 		}, hopts...))
 	mux.Handle("/verif.Svc/Client", connect.NewClientStreamHandler("/verif.Svc/Client",
 		func(_ context.Context, s *connect.ClientStream[T]) (*connect.Response[T], error) {
 			calls++
+			ex.HandlerSawHeader = s.RequestHeader().Clone()
 			for s.Receive() {
 				hgot = append(hgot, append([]byte(nil), mk.get(s.Msg())...))
 			}
@@ -87,12 +136,18 @@ func runE2E[T any](mk msgKind[T], kind string, via e2eTransport, copts []connect
 			if retErr != nil {
 				return nil, retErr
 			}
-			return connect.NewResponse(mk.mk(resMsgs[0])), nil
+			resp := connect.NewResponse(mk.mk(resMsgs[0]))
+			copyHeader(resp.Header(), ex.ResHeader)
+			copyHeader(resp.Trailer(), ex.ResTrailer)
+			return resp, nil
 		}, hopts...))
 	mux.Handle("/verif.Svc/Server", connect.NewServerStreamHandler("/verif.Svc/Server",
 		func(_ context.Context, req *connect.Request[T], s *connect.ServerStream[T]) error {
 			calls++
+			ex.HandlerSawHeader = req.Header().Clone()
 			hgot = append(hgot, append([]byte(nil), mk.get(req.Msg)...))
+			copyHeader(s.ResponseHeader(), ex.ResHeader)
+			copyHeader(s.ResponseTrailer(), ex.ResTrailer)
 			for _, m := range resMsgs {
 				if err := s.Send(mk.mk(m)); err != nil {
 					return err
@@ -103,6 +158,9 @@ func runE2E[T any](mk msgKind[T], kind string, via e2eTransport, copts []connect
 	mux.Handle("/verif.Svc/Bidi", connect.NewBidiStreamHandler("/verif.Svc/Bidi",
 		func(_ context.Context, s *connect.BidiStream[T, T]) error {
 			calls++
+			ex.HandlerSawHeader = s.RequestHeader().Clone()
+			copyHeader(s.ResponseHeader(), ex.ResHeader)
+			copyHeader(s.ResponseTrailer(), ex.ResTrailer)
 			for {
 				m, err := s.Receive()
 				if err != nil {
@@ -156,7 +214,10 @@ func runE2E[T any](mk msgKind[T], kind string, via e2eTransport, copts []connect
 			switch kind {
 			case "unary":
 				cl := connect.NewClient[T, T](httpClient, base+"/verif.Svc/Unary", copts...)
-				resp, err := cl.CallUnary(ctx, connect.NewRequest(mk.mk(reqMsgs[0])))
+				creq := connect.NewRequest(mk.mk(reqMsgs[0]))
+				copyHeader(creq.Header(), ex.ReqHeader)
+				resp, err := cl.CallUnary(ctx, creq)
+				ex.ClientErr = err
 				if err == nil {
 					res.ClientGot = append(res.ClientGot, append([]byte(nil), mk.get(resp.Msg)...))
 					res.ResHeader, res.ResTrailer = resp.Header(), resp.Trailer()
@@ -165,6 +226,7 @@ func runE2E[T any](mk msgKind[T], kind string, via e2eTransport, copts []connect
 			case "client":
 				cl := connect.NewClient[T, T](httpClient, base+"/verif.Svc/Client", copts...)
 				st := cl.CallClientStream(ctx)
+				copyHeader(st.RequestHeader(), ex.ReqHeader)
 				var err error
 				for _, m := range reqMsgs {
 					if err = st.Send(mk.mk(m)); err != nil {
@@ -172,6 +234,7 @@ func runE2E[T any](mk msgKind[T], kind string, via e2eTransport, copts []connect
 					}
 				}
 				resp, rerr := st.CloseAndReceive()
+				ex.ClientErr = rerr
 				if rerr == nil {
 					res.ClientGot = append(res.ClientGot, append([]byte(nil), mk.get(resp.Msg)...))
 					res.ResHeader, res.ResTrailer = resp.Header(), resp.Trailer()
@@ -179,8 +242,11 @@ func runE2E[T any](mk msgKind[T], kind string, via e2eTransport, copts []connect
 				res.ClientEnd = endOf(rerr)
 			case "server":
 				cl := connect.NewClient[T, T](httpClient, base+"/verif.Svc/Server", copts...)
-				st, err := cl.CallServerStream(ctx, connect.NewRequest(mk.mk(reqMsgs[0])))
+				sreq := connect.NewRequest(mk.mk(reqMsgs[0]))
+				copyHeader(sreq.Header(), ex.ReqHeader)
+				st, err := cl.CallServerStream(ctx, sreq)
 				if err != nil {
+					ex.ClientErr = err
 					res.ClientEnd = endOf(err)
 					return
 				}
@@ -188,11 +254,13 @@ func runE2E[T any](mk msgKind[T], kind string, via e2eTransport, copts []connect
 					res.ClientGot = append(res.ClientGot, append([]byte(nil), mk.get(st.Msg())...))
 				}
 				res.ClientEnd = endOf(st.Err())
+				ex.ClientErr = st.Err()
 				res.ResHeader, res.ResTrailer = st.ResponseHeader(), st.ResponseTrailer()
 				_ = st.Close()
 			case "bidi":
 				cl := connect.NewClient[T, T](httpClient, base+"/verif.Svc/Bidi", copts...)
 				st := cl.CallBidiStream(ctx)
+				copyHeader(st.RequestHeader(), ex.ReqHeader)
 				for _, m := range reqMsgs {
 					if err := st.Send(mk.mk(m)); err != nil {
 						break
@@ -206,6 +274,7 @@ func runE2E[T any](mk msgKind[T], kind string, via e2eTransport, copts []connect
 							res.ClientEnd = "eof"
 						} else {
 							res.ClientEnd = endOf(err)
+							ex.ClientErr = err
 						}
 						break
 					}
